@@ -180,7 +180,8 @@ def _check_specific_rule_ignore(line: str, rule_id: str) -> bool:
     space_match = re.search(r"ignore-file\s+([^\s#]+(?:\s+[^\s#]+)*)", line, re.IGNORECASE)
     if space_match:
         return check_space_separated_rules(space_match.group(1), rule_id)
-    return False
+    # Bare "ignore-file" (no rule list) applies to all rules
+    return bool(re.search(r"ignore-file\s*$", line, re.IGNORECASE))
 
 
 def _check_specific_rule_in_line(code: str, rule_id: str) -> bool:
@@ -191,6 +192,9 @@ def _check_specific_rule_in_line(code: str, rule_id: str) -> bool:
     space_match = re.search(r"ignore\s+([^\s#]+(?:\s+[^\s#]+)*)", code, re.IGNORECASE)
     if space_match:
         return check_space_separated_rules(space_match.group(1), rule_id)
+    # Bare "thailint: ignore" at the end of the line applies to all rules
+    if re.search(r"(?:thailint|design-lint):\s*ignore\s*$", code, re.IGNORECASE):
+        return True
     return "ignore-all" in code.lower()
 
 
